@@ -136,11 +136,19 @@ SimFormula(ev) ==
                 AllOk(CpRules(R(st, dir), R(st, Oth(dir)), ev.args.offer, st.fees, sim))>> >>
      ELSE <<>>
 
+\* beyond the listed properties: the reverse quote.  Asked what must be offered to receive `ask`, the pair names an offer;
+\* the forward quote for that offer should promise at least `ask` (one unit of rounding allowed), and not need more than the
+\* offer the forward quote started from plus one
+ReverseSimX(ev) ==
+  LET r == ev.pre.rsim IN
+  IF r.res # "ok" \/ r.fwd_res # "ok" THEN <<>>
+  ELSE << <<"X.reverse-simulation.the-offer-it-names-buys-the-ask", r.ask \preceq (r.fwd ++ One)>>,
+          <<"X.reverse-simulation.names-no-more-than-the-offer-that-was-quoted", r.offer \preceq (ev.args.offer ++ One)>> >>
 SwapEv(ev, t) ==
   LET dir == ev.args.dir  offer == ev.args.offer  u == ev.actor  sim == ev.pre.sim
       ms == ev.args.ms  bp == ev.args.bp
       live == Zero \prec st.S /\ Zero \prec R(st, 1) /\ Zero \prec R(st, 2)
-  IN SimFormula(ev) \o
+  IN SimFormula(ev) \o ReverseSimX(ev) \o
      \* a cw20 offer named in the direct swap message pays nothing in: it must be refused (an accepted one is judged as a swap)
      (IF ev.args.wrong_path THEN << <<"C02.swap.only-against-tokens-paid-in", ev.res # "ok">> >> ELSE <<>>) \o
      IF ev.res = "ok"
